@@ -44,7 +44,10 @@ def run_cfg(draw):
            "E": draw(st.integers(1, 3)), "seed": draw(st.integers(0, 2**32 - 2)),
            "verbose": draw(st.booleans()), "n_jobs": draw(st.sampled_from([1, 1, 1, 1, 2])), "as_array": draw(st.booleans())}
     if scripted:
-        cfg["script"] = draw(st.lists(weird, min_size=2, max_size=12))
+        cfg["script"] = draw(st.one_of(st.lists(weird, min_size=2, max_size=12), st.lists(weird, min_size=2, max_size=12),
+                                       # whole numbers only (counts), a negative zero among them
+                                       st.lists(st.sampled_from([-0.0, -0.0, 0.0, 1.0, 2.0, -3.0, 7.0, 1e22, 4503599627370496.0]),
+                                                min_size=2, max_size=8)))
         cfg["loss"] = {"kind": "scripted"}
         cfg["convergence_precision"] = draw(st.sampled_from([None, None, 0, 3]))
         # a simulation length different from the real series' (the scripted loss does not care)
@@ -68,6 +71,7 @@ def cases(draw):
     op = st.one_of(st.tuples(st.just("calibrate"), st.integers(1, 3)), st.tuples(st.just("calibrate"), st.integers(1, 3)),
                    st.tuples(st.just("checkpoint"), st.integers(0, 2)), st.tuples(st.just("restore")),
                    st.tuples(st.just("caller_reuses_arguments")),
+                   st.tuples(st.just("assign_saving_folder"), st.integers(0, 2)),
                    st.tuples(st.just("set_samplers"), gen.lineup_spec(kinds=["halton", "rseq", "uniform", "pso"], min_len=1,
                                                                       max_len=3, max_bs=2)),
                    st.tuples(st.just("new_run"), st.integers(0, len(cfgs) - 1), st.integers(-1, 2)))
@@ -80,9 +84,9 @@ def cases(draw):
     return {"cfgs": cfgs, "ops": ops, "relative_folders": draw(st.integers(0, 5)) == 0}
 
 
-def build(cfg, folder):
+def build(cfg, folder, **over):
     loss = ScriptedLoss(cfg["script"]) if cfg["loss"]["kind"] == "scripted" else None
-    return calib.build(cfg, loss=loss, saving_folder=folder)
+    return calib.build(cfg, loss=loss, saving_folder=folder, **over)
 
 
 def seventeen(x):
@@ -154,7 +158,10 @@ def check_json(ctx: Ctx, case):
                     cfg = cfgs[op[1]]
                     run_id += 1
                     model = models.get(cfg["model"], cfg["D"])
-                    cal = build(cfg, folders[op[2]] if op[2] >= 0 else None)   # -1: a calibrator without a saving folder
+                    # -1: a calibrator without a saving folder. (With relative folder names the working directory is a scratch
+                    # directory that disappears afterwards: no worker processes are started from inside it.)
+                    cal = build(cfg, folders[op[2]] if op[2] >= 0 else None,
+                                **({"n_jobs": 1} if case.get("relative_folders") else {}))
                     continue
                 if op[0] == "calibrate":
                     try:
@@ -176,6 +183,11 @@ def check_json(ctx: Ctx, case):
                     # replaced sampler classes keep their ids only in the calibrator's id table
                     cal.set_samplers([gen.make_sampler(x) for x in op[1]])
                     classes.add("set_samplers")
+                    continue
+                elif op[0] == "assign_saving_folder":
+                    # cal.saving_folder = ... (the idiom of the project's notebooks): later batches are checkpointed there
+                    cal.saving_folder = folders[op[1]]
+                    classes.add("saving-folder-assigned")
                     continue
                 elif op[0] == "caller_reuses_arguments":
                     # the arrays given to the constructor belong to the caller, who may overwrite them afterwards
